@@ -103,7 +103,8 @@ def run_case(case, contig, header, refhandles):
     klass = TAPSCHICMolecule if case['klass'] == 'chic' else TAPSNlaIIIMolecule
     mol = klass(frags[0], **kwargs)
     for f in frags[1:]:
-        mol.add_fragment(f)
+        if not mol.add_fragment(f) and case.get('force'):
+            mol._add_fragment(f)      # a fragment the matcher refuses (no site / other anchor) is attached anyway
     res = {'taps_strand_used': mol.taps_strand,
            'strand': None if mol.strand is None else (1 if mol.strand else 0),
            'abstract': [[abstract_read(f.reads[0]), abstract_read(f.reads[1])] for f in mol.fragments],
